@@ -220,6 +220,29 @@ impl Signer {
         sig
     }
 
+    /// Header authentication of a request that carries no `x-amz-content-sha256` header (mandatory for S3 only; the STS
+    /// style of a custom route): the canonical request ends with the SHA-256 of the body.
+    pub fn sign_header_no_digest(&self, req: &mut Req, extra_signed: &[String]) -> String {
+        req.set_header("x-amz-date", &self.date16);
+        req.headers.retain(|(n, _)| n != "x-amz-content-sha256");
+        let mut signed: Vec<String> = extra_signed.to_vec();
+        for n in ["host", "x-amz-date"] {
+            if !signed.iter().any(|s| s == n) {
+                signed.push(n.to_owned());
+            }
+        }
+        signed.sort();
+        signed.dedup();
+        let payload = sha256_hex(&req.body);
+        let creq = canonical_request(req, &signed, &payload, None, None).expect("signable request");
+        let sts = string_to_sign(&self.date16, &self.scope(), &creq);
+        let sig = signature(&self.secret, self.date8(), &self.region, &self.service, &sts);
+        let auth = format!("AWS4-HMAC-SHA256 Credential={}/{}, SignedHeaders={}, Signature={sig}", self.access_key, self.scope(), signed.join(";"));
+        req.headers.retain(|(n, _)| n != "authorization");
+        req.headers.push(("authorization".into(), auth));
+        sig
+    }
+
     /// Presign: adds the X-Amz-* query parameters and the signature.
     pub fn presign(&self, req: &mut Req, expires: &str, extra_signed: &[String]) -> String {
         let mut signed: Vec<String> = extra_signed.to_vec();
